@@ -26,6 +26,18 @@ EXTRA = {
     'C11-sendall-outside-lock-plus-unlocked-control': ['C12'],
     'C10-header-limit-skipped-when-terminated': ['C19'],
     'C19-proxy-header-limit-skipped': ['C10'],
+    'C06-send-lock-only-around-compress': ['C11'],
+    'C07-echo-bypasses-close-no-sent-time': ['C09', 'C15'],
+    'C09-close-timeout-falsy-zero': ['C15', 'C07'],
+    'C15-close-timeout-falsy-zero': ['C07'],
+    'C08-send-pong-except-narrowed-closing-escapes': ['C14'],
+    'C02-ascii-fast-path-skips-validator': ['C05'],
+    'C05-ascii-fast-path-skips-validator': ['C02'],
+    'C17-parser-defaults-hoisted-to-class': ['C05'],
+    'C01-cached-read-awaitables': ['C02'],
+    'C18-remaining-double-subtracted': ['C01', 'C02'],
+    'C04-fragments-cleared-on-control-fin': ['C01'],
+    'C14-frames-materialised-before-dispatch': ['C04'],
 }
 
 
